@@ -86,7 +86,7 @@ class Sidecar:
                     cur = self.loop.setdefault((f.strip(), int(n)), [])
                 elif kind == "proof":
                     hdr = line[4:].split(None, 1)[1]
-                    m = re.match(r"(.*?)\s+(entry|before-loop|after-loop|loop-start|loop-end)(?:\s+(\d+))?$", hdr)
+                    m = re.match(r"(.*?)\s+(entry|end|before-loop|after-loop|loop-start|loop-end)(?:\s+(\d+))?$", hdr)
                     if not m:
                         raise Undecided(f"bad sidecar header: {line}")
                     cur = self.proof.setdefault((m.group(1).strip(), m.group(2), int(m.group(3) or 0)), [])
@@ -192,6 +192,12 @@ def weave_fn(src: Source, fn_item, key, side: Sidecar, used: set):
         txt = W("\n" + Sidecar.txt(lines) + "\n")
         if where == "entry":
             ins.append((body_open + 1, txt))
+        elif where == "end":
+            # only for functions returning (): the body's tail expression (if any) becomes a statement
+            hdr = [t for t in src.toks if fn_item.head_start <= t.pos < body_open and t.kind == R.P and t.text == "->"]
+            if hdr:
+                raise Undecided(f"`end` proof anchor on `{key}` which returns a value")
+            ins.append((body_close, txt))
         else:
             if n < 1 or n > len(loops):
                 raise Undecided(f"lost anchor: loop {n} of {key} (function has {len(loops)} loops)")
@@ -628,7 +634,7 @@ def verus_replay(prop, r, unit):
     if srch:
         try:
             import native_search
-            found = native_search.run(unit, srch, r)
+            found = native_search.search(unit, srch, r)
             if found:
                 rec.update(found)
         except Exception as e:
